@@ -158,14 +158,16 @@ Tree parseTree(const Scenario &s, bool noSleep, bool noTimeout) {
   return T;
 }
 
+// the value itself when it is inside [lo,hi] (friendly to hand-written replays), otherwise reduced into the range
+int argIn(const Op &op, size_t i, int64_t lo, int64_t hi) { int64_t v = op.arg(i, lo); return (int)((v >= lo && v <= hi) ? v : op.in(i, lo, hi)); }
 Script parseScript(const Scenario &s) {
   Script sc;
   for (auto &op : s.ops) {
     switch (op.code) {
       case CFG: sc.autores = (int)op.in(0, 0, 4); sc.pre_stop = op.in(1, 0, 1) != 0; break;
       case CTL: if (sc.ctl.size() < 24) sc.ctl.push_back({(int)op.in(0, 0, kScriptTicks - 1), (int)op.in(1, 0, NWHAT - 1), (int)op.in(2, 0, 1)}); break;
-      case CTLEV: if (sc.ev.size() < 12) sc.ev.push_back({(int)op.in(0, 0, NEVCLASS - 1), (int)op.in(1, 1, 12), (int)op.in(2, 0, NWHAT - 1), (int)op.in(3, 0, 3)}); break;
-      case CTLCB: if (sc.cb.size() < 8) sc.cb.push_back({(int)op.in(0, 1, 12), (int)op.in(1, 0, NWHAT - 1)}); break;
+      case CTLEV: if (sc.ev.size() < 12) sc.ev.push_back({(int)op.in(0, 0, NEVCLASS - 1), argIn(op, 1, 1, 12), (int)op.in(2, 0, NWHAT - 1), (int)op.in(3, 0, 3)}); break;
+      case CTLCB: if (sc.cb.size() < 8) sc.cb.push_back({argIn(op, 0, 1, 12), (int)op.in(1, 0, NWHAT - 1)}); break;
       case ADV: if (sc.adv.size() < 8) sc.adv.push_back({(int)op.in(0, 0, kScriptTicks - 1), op.in(1, 0, 2000)}); break;
       case PRE: if (sc.pre.size() < 12) sc.pre.push_back({(int)op.in(0, 0, 15), (int)op.in(1, 0, NWHAT - 1), (int)op.in(2, 0, 1)}); break;
       case PP: if (sc.pp.size() < 6) sc.pp.push_back({(int)op.in(0, 0, kScriptTicks - 1), (int)op.in(1, 0, 6), (int)op.in(2, 0, 1)}); break;
@@ -190,21 +192,22 @@ std::string nodeName(const Tree &T, int n) {
 // the needed branch missing succeeds; Repeat exhaustion succeeds; IfThen without a true condition and Switch without a
 // matching case / with a failing selector fail; LoopIf returns its configured finish result).
 // Written from the headers and *_test.cpp only.  Result: 1 success, 0 failure, -1 never finishes.
+int leafResultOf(const Tree &T, int n, int run) {
+  const TNode &d = T.n[n];
+  switch (d.kind) {
+    case K_SUCC: case K_SLEEP: return 1;
+    case K_FAIL: return 0;
+    case K_FUNC: return (d.mask() >> (run % 8)) & 1;
+    default: return d.dtype() == 2 ? -1 : (d.mask() >> (run % 8)) & 1;
+  }
+}
 struct MNode { int type; int tn; std::vector<int> kids; };   // type 0 leaf, 1 series, 2 parallel; tn = tree node
 struct Ref {
   const Tree &T; std::vector<int> runs; std::vector<MNode> m; int budget = 1500; int loopDepth = 0;
   bool truncated = false, ambiguous = false, ambInLoop = false;
   explicit Ref(const Tree &t) : T(t), runs(t.n.size(), 0) {}
   int mk(int type, int tn) { m.push_back(MNode{type, tn, {}}); return (int)m.size() - 1; }
-  int leafResult(int n, int run) const {
-    const TNode &d = T.n[n];
-    switch (d.kind) {
-      case K_SUCC: case K_SLEEP: return 1;
-      case K_FAIL: return 0;
-      case K_FUNC: return (d.mask() >> (run % 8)) & 1;
-      default: return d.dtype() == 2 ? -1 : (d.mask() >> (run % 8)) & 1;
-    }
-  }
+  int leafResult(int n, int run) const { return leafResultOf(T, n, run); }
   int eval(int n, int &out) {
     const TNode &d = T.n[n];
     if (isLeaf(d.kind)) { out = mk(0, n); if (--budget < 0) { truncated = true; return -1; } return leafResult(n, runs[n]++); }
@@ -271,3 +274,790 @@ struct Matcher {
     return false;
   }
 };
+
+// ------------------------------------------------------------------------------------------------------ real side
+enum { ST_IDLE, ST_RUN, ST_PAUSE, ST_FIN, ST_STOP };
+const char *kStName[] = {"idle", "running", "paused", "finished", "stopped"};
+enum { EV_S, EV_FT, EV_FF, EV_X, EV_P, EV_R, EV_Z, EV_B, EV_T, EV_L, EV_CBFT, EV_CBFF, EV_CBB, EV_CTL };
+const char *kEvName[] = {"start", "finish(succ)", "finish(fail)", "stop", "pause", "resume", "reset", "block", "timeout", "final-hook",
+                         "root-finish-callback(succ)", "root-finish-callback(fail)", "root-block-callback", "ctl-start", "ctl-pause", "ctl-resume", "ctl-stop", "ctl-reset"};
+enum { PD_NONE, PD_START, PD_WAIT, PD_FINISH };
+struct Ent { int tick, node, kind; };
+inline bool operator==(const Ent &x, const Ent &y) { return x.tick == y.tick && x.node == y.node && x.kind == y.kind; }
+
+struct Run;
+void runEv(Run *r, int node, int kind);
+
+template <class Base> struct Probe : Base {
+  Run *run_; int idx_;
+  template <class... A> Probe(Run *r, int idx, A &&...a) : Base(std::forward<A>(a)...), run_(r), idx_(idx) {}
+  using Reason = Action::Reason; using Trace = Action::Trace;
+  void onStart() override { runEv(run_, idx_, EV_S); Base::onStart(); }
+  void onStop() override { runEv(run_, idx_, EV_X); Base::onStop(); }
+  void onPause() override { runEv(run_, idx_, EV_P); Base::onPause(); }
+  void onResume() override { runEv(run_, idx_, EV_R); Base::onResume(); }
+  void onReset() override { runEv(run_, idx_, EV_Z); Base::onReset(); }
+  void onBlock(const Reason &w, const Trace &t) override { runEv(run_, idx_, EV_B); Base::onBlock(w, t); }
+  void onFinished(bool s, const Reason &w, const Trace &t) override { runEv(run_, idx_, s ? EV_FT : EV_FF); Base::onFinished(s, w, t); }
+  void onTimeout() override { runEv(run_, idx_, EV_T); Base::onTimeout(); }
+};
+
+struct NodeRt {
+  Action *act = nullptr;
+  int st = ST_IDLE, res = -1;          // what the callbacks said: state, result (-1 unsure, 0 fail, 1 success)
+  bool ended = false; int finals = 0;  // current run ended by finish/stop; final-hook invocations in it
+  int finTick = -1;                    // pass in which it finished (statistics: control call between finish and handling)
+  // documented-flow monitor (composites)
+  int pend = PD_NONE, pendChild = -1, pendRes = 0;
+  std::vector<char> toStart; int toStartLeft = 0;       // Parallel: children not yet started in this run
+  std::vector<signed char> fin; int nfin = 0; bool trig = false;   // Parallel
+  int idx = 0, remain = 0;
+  bool tmoPending = false;
+  // leaves
+  int runs = 0, phase = 0, cd = 0, emitRes = -1;
+};
+
+struct RootRun { std::vector<int> starts; int result = -1; bool tmo = false, stopped = false, reset = false; };
+
+struct Run {
+  const Tree &T; const Script &S; tbox::event::Loop *loop; uint64_t &now;
+  std::vector<NodeRt> rt; Action *root = nullptr;
+  std::vector<Ent> trace; std::string err;
+  int tick = 0;
+  bool inRootStart = false, scriptActive = false;
+  const std::vector<Ctl> *prog = nullptr; int progBase = 0;
+  std::vector<std::pair<int, int>> due;   // (ticks left, what)
+  int cnt[NEVCLASS] = {0, 0, 0, 0, 0};
+  int pendingFinishCb = 0, pendingBlockCb = 0;
+  std::vector<RootRun> runs;
+  std::vector<std::array<int, 2>> ppOpen;   // (resume tick, -) pause pairs whose pause took effect
+  // statistics
+  bool frozen = false;   // after the final stop: late control calls are ignored
+  bool between = false, pauseBetween = false, anyTimeout = false, blockSeen = false, pausedFinishStored = false,
+       resetUnderway = false, sleepAnomaly = false, nonquiescent = false, staleProbe = false;
+  int nCtlApplied = 0;
+
+  Run(const Tree &t, const Script &s, tbox::event::Loop *l, uint64_t &clock) : T(t), S(s), loop(l), now(clock), rt(t.n.size()) {}
+  ~Run() { delete root; }
+
+  void fail(const std::string &m) { if (err.empty()) err = "pass " + std::to_string(tick) + ": " + m; }
+  std::string nn(int n) const { return nodeName(T, n); }
+
+  // ---- building the real tree
+  Action *build(int n) {
+    using namespace tbox::flow;
+    const TNode &d = T.n[n]; auto &L = *loop; Action *a = nullptr; bool ok = true;
+    switch (d.kind) {
+      case K_SEQ: { auto p = new Probe<SequenceAction>(this, n, L, SequenceAction::Mode(d.mode % 3)); a = p; for (int c : d.ch) ok &= p->addChild(build(c)) >= 0; break; }
+      case K_PAR: { auto p = new Probe<ParallelAction>(this, n, L, ParallelAction::Mode(d.mode % 3)); a = p; for (int c : d.ch) ok &= p->addChild(build(c)) >= 0; break; }
+      case K_IFELSE: { auto p = new Probe<IfElseAction>(this, n, L); a = p;
+        ok &= p->setChildAs(build(d.ch[0]), "if");
+        if (d.ch.size() == 3) { ok &= p->setChildAs(build(d.ch[1]), "then"); ok &= p->setChildAs(build(d.ch[2]), "else"); }
+        else ok &= p->setChildAs(build(d.ch[1]), (d.mode & 1) ? "else" : "then");
+        break; }
+      case K_IFTHEN: { auto p = new Probe<IfThenAction>(this, n, L); a = p;
+        for (size_t i = 0; i < d.ch.size(); ++i) ok &= p->addChildAs(build(d.ch[i]), (i & 1) ? "then" : "if") >= 0;
+        break; }
+      case K_SWITCH: { auto p = new Probe<SwitchAction>(this, n, L); a = p;
+        ok &= p->setChildAs(build(d.ch[0]), "switch");
+        int ncase = (int)d.ch.size() - 1 - (switchHasDefault(d) ? 1 : 0);
+        for (int i = 0; i < ncase; ++i) ok &= p->setChildAs(build(d.ch[1 + i]), "case:" + std::to_string(i));
+        if (switchHasDefault(d)) ok &= p->setChildAs(build(d.ch.back()), "default");
+        break; }
+      case K_LOOP: { auto p = new Probe<LoopAction>(this, n, L, LoopAction::Mode(d.mode % 3)); a = p; ok &= p->setChild(build(d.ch[0])); break; }
+      case K_LOOPIF: { auto p = new Probe<LoopIfAction>(this, n, L); a = p; ok &= p->setChildAs(build(d.ch[0]), "if"); ok &= p->setChildAs(build(d.ch[1]), "exec");
+        if (d.mode & 1) p->setFinishResult(false); break; }
+      case K_REPEAT: { auto p = new Probe<RepeatAction>(this, n, L, (size_t)d.times(), RepeatAction::Mode(d.mode % 3)); a = p; ok &= p->setChild(build(d.ch[0])); break; }
+      case K_WRAPPER: { auto p = new Probe<WrapperAction>(this, n, L, WrapperAction::Mode(d.mode % 4)); a = p; ok &= p->setChild(build(d.ch[0])); break; }
+      case K_COMPOSITE: { auto p = new Probe<CompositeAction>(this, n, L, "Composite"); a = p; ok &= p->setChild(build(d.ch[0])); break; }
+      case K_SUCC: a = new Probe<SuccAction>(this, n, L); break;
+      case K_FAIL: a = new Probe<FailAction>(this, n, L); break;
+      case K_FUNC: a = new Probe<FunctionAction>(this, n, L, FunctionAction::FuncWithReason([this, n](Action::Reason &r) { return funcLeaf(n, r); })); break;
+      case K_DUMMY: a = new Probe<DummyAction>(this, n, L); break;
+      default: a = new Probe<SleepAction>(this, n, L, std::chrono::milliseconds(kSleepBase + d.a % 20)); break;
+    }
+    if (!ok) fail("harness: adding a child to " + nn(n) + " was refused");
+    rt[n].act = a;
+    if (!isLeaf(d.kind)) static_cast<AssembleAction *>(a)->setFinalCallback([this, n] { runEv(this, n, EV_L); });
+    if (d.tmo) a->setTimeout(std::chrono::milliseconds(d.tmo));
+    return a;
+  }
+  void buildTree() {
+    root = build(0);
+    root->setFinishCallback([this](bool s, const Action::Reason &, const Action::Trace &) { rootFinishCb(s); });
+    root->setBlockCallback([this](const Action::Reason &, const Action::Trace &) { rootBlockCb(); });
+    if (!root->isReady()) fail("harness: generated tree is not isReady()");
+  }
+  std::string leafMessage(int n, int run) const {
+    int p = T.n[n].parent;
+    if (p >= 0 && T.n[p].kind == K_SWITCH && T.n[p].ch[0] == n) return selMessage(switchSel(T, p, run));
+    return "leaf";
+  }
+  bool funcLeaf(int n, Action::Reason &r) {
+    int run = rt[n].runs - 1;
+    r.message = leafMessage(n, run);
+    return (T.n[n].mask() >> (run % 8)) & 1;
+  }
+
+  // ---- event intake: bookkeeping, documented-flow monitors, invariants that can be decided at the event
+  static bool traceOn() { static const bool on = getenv("VERIF_C17_TRACE") != nullptr; return on; }
+  void note(int n, int kind) {   // VERIF_C17_TRACE=1: print every event (for reading replays; never changes behaviour)
+    trace.push_back(Ent{tick, n, kind});
+    if (traceOn()) fprintf(stderr, "[c17] pass %d: %s %s\n", tick, nn(n).c_str(), kEvName[kind]);
+  }
+  void ev(int n, int kind) {
+    note(n, kind);
+    if (!err.empty()) return;
+    NodeRt &x = rt[n]; const TNode &d = T.n[n]; bool leaf = isLeaf(d.kind);
+    switch (kind) {
+      case EV_S: {
+        if (x.st == ST_RUN || x.st == ST_PAUSE) fail(nn(n) + " was started again while its previous run is under way (" + kStName[x.st] + ")");
+        checkFinals(n);
+        if (d.parent >= 0) parentExpectStart(d.parent, n);
+        else if (!inRootStart) fail("the root was started, but not by the control script");
+        x.st = ST_RUN; x.res = -1; x.ended = false; x.finals = 0; x.tmoPending = false; x.finTick = -1;
+        if (n == 0) { runs.emplace_back(); pendingFinishCb = 0; pendingBlockCb = 0; }
+        if (leaf) {
+          if (runs.empty()) runs.emplace_back();
+          runs.back().starts.push_back(n);
+          x.runs++; x.phase = 0; x.cd = d.delay(); x.emitRes = -1;
+          bump(EC_LEAF_START);
+          if (scriptActive) for (auto &c : S.cb) if (c.n == cnt[EC_LEAF_START]) { int w = c.what; loop->runNext([this, w] { apply(w); }, "c17 ctlcb"); }
+        } else initMonitor(n);
+        break; }
+      case EV_FT: case EV_FF: {
+        int r = kind == EV_FT;
+        if (x.st == ST_IDLE) { fail(nn(n) + " accepted finish(" + (r ? "succ" : "fail") + ") although it is idle (never started or reset): stale finish"); staleProbe = true; }
+        if (leaf) {
+          int exp = x.tmoPending ? 0 : (d.kind == K_DUMMY ? x.emitRes : leafResultOf(T, n, x.runs - 1));
+          if (exp != r) fail(nn(n) + " finished with " + (r ? "success" : "failure") + ", its script says " + (exp < 0 ? "it does not finish now" : exp ? "success" : "failure"));
+        } else if (x.tmoPending) {
+          if (r) fail(nn(n) + " timed out but finished with success");
+        } else if (x.toStartLeft > 0) fail(nn(n) + " finished before having started all its children");
+        else if (x.pend != PD_FINISH) fail(nn(n) + " finished(" + (r ? "succ" : "fail") + ") although its documented flow " + describePend(n));
+        else if (x.pendRes != r) fail(nn(n) + " finished with " + (r ? "success" : "failure") + ", documented result is " + (x.pendRes ? "success" : "failure"));
+        x.st = ST_FIN; x.res = r; x.ended = true; x.pend = PD_NONE; x.tmoPending = false; x.finTick = tick;
+        if (d.parent >= 0) { childFinished(d.parent, n, r); bump(leaf ? EC_LEAF_FIN : EC_NODE_FIN); }
+        else { pendingFinishCb = 1; if (!runs.empty()) runs.back().result = r; if (leaf) bump(EC_LEAF_FIN); }
+        break; }
+      case EV_X:
+        x.st = ST_STOP; x.ended = true; x.pend = PD_NONE; x.tmoPending = false; x.toStartLeft = 0;
+        if (n == 0 && !runs.empty()) runs.back().stopped = true;
+        break;
+      case EV_P: x.st = ST_PAUSE; break;
+      case EV_R: x.st = ST_RUN; break;
+      case EV_Z:
+        checkFinals(n);
+        if (x.st == ST_RUN || x.st == ST_PAUSE) { if (n == 0) { resetUnderway = true; if (!runs.empty()) runs.back().reset = true; } }
+        x.st = ST_IDLE; x.res = -1; x.ended = false; x.finals = 0; x.pend = PD_NONE; x.tmoPending = false; x.toStartLeft = 0;
+        if (n == 0) { pendingFinishCb = 0; pendingBlockCb = 0; }
+        break;
+      case EV_B:
+        if (x.st == ST_IDLE) { fail(nn(n) + " accepted block() although it is idle (never started or reset): stale block"); staleProbe = true; }
+        x.st = ST_PAUSE; blockSeen = true;
+        if (n == 0) { pendingBlockCb++; bump(EC_ROOT_BLOCK); } else if (leaf) bump(EC_LEAF_BLOCK);
+        break;
+      case EV_T:
+        anyTimeout = true; if (!runs.empty()) runs.back().tmo = true;
+        if (x.st == ST_RUN || x.st == ST_PAUSE) x.tmoPending = true;
+        break;
+      case EV_L:
+        x.finals++;
+        if (x.st != ST_FIN && x.st != ST_STOP) fail("final hook of " + nn(n) + " ran while it is " + kStName[x.st]);
+        else if (x.finals > 1) fail("final hook of " + nn(n) + " ran " + std::to_string(x.finals) + " times in one run");
+        break;
+    }
+  }
+  void bump(int cls) {
+    cnt[cls]++;
+    if (!scriptActive) return;
+    for (auto &e : S.ev) if (e.cls == cls && e.n == cnt[cls]) due.push_back({e.delay, e.what});
+  }
+  void checkFinals(int n) {
+    NodeRt &x = rt[n];
+    if (!isLeaf(T.n[n].kind) && x.ended && x.finals != 1) fail("final hook of " + nn(n) + " ran " + std::to_string(x.finals) + " times in the run that just ended (" + kStName[x.st] + ")");
+  }
+  std::string describePend(int n) const {
+    const NodeRt &x = rt[n];
+    switch (x.pend) {
+      case PD_START: return "says: start child " + std::to_string(T.childIndex(n, x.pendChild)) + " next";
+      case PD_WAIT: return "says: wait for child " + std::to_string(T.childIndex(n, x.pendChild)) + " (" + kStName[rt[x.pendChild].st] + ")";
+      case PD_FINISH: return std::string("says: finish with ") + (x.pendRes ? "success" : "failure");
+      default: return T.n[n].kind == K_PAR ? "says: wait for the children" : "has nothing pending";
+    }
+  }
+  void initMonitor(int n) {
+    NodeRt &x = rt[n]; const TNode &d = T.n[n];
+    x.idx = 0; x.remain = 0; x.pend = PD_NONE; x.pendChild = -1; x.toStartLeft = 0; x.nfin = 0; x.trig = false;
+    if (d.kind == K_PAR) {
+      x.toStart.assign(d.ch.size(), 1); x.toStartLeft = (int)d.ch.size(); x.fin.assign(d.ch.size(), -1);
+      if (d.ch.empty()) { x.pend = PD_FINISH; x.pendRes = 1; }
+      return;
+    }
+    if (d.kind == K_SEQ && d.ch.empty()) { x.pend = PD_FINISH; x.pendRes = 1; return; }
+    if (d.kind == K_REPEAT) x.remain = d.times() - 1;
+    x.pend = PD_START; x.pendChild = d.ch[0];
+  }
+  void parentExpectStart(int p, int c) {
+    NodeRt &P = rt[p]; const TNode &d = T.n[p];
+    if (P.st != ST_RUN && P.st != ST_PAUSE) { fail(nn(c) + " was started while its parent is " + kStName[P.st]); return; }
+    if (d.kind == K_PAR) {
+      int i = T.childIndex(p, c);
+      if (P.toStartLeft > 0 && P.toStart[i]) { P.toStart[i] = 0; P.toStartLeft--; }
+      else fail(nn(c) + " was started a second time in one run of its Parallel parent");
+      return;
+    }
+    if (P.pend == PD_START && P.pendChild == c) { P.pend = PD_WAIT; return; }
+    fail(nn(c) + " was started, but the documented flow of its parent " + describePend(p));
+  }
+  void setStart(NodeRt &P, int c) { P.pend = PD_START; P.pendChild = c; }
+  void setFinish(NodeRt &P, int r) { P.pend = PD_FINISH; P.pendRes = r; }
+  void childFinished(int p, int c, int r) {
+    NodeRt &P = rt[p]; const TNode &d = T.n[p];
+    if (P.st != ST_RUN && P.st != ST_PAUSE) return;
+    if (P.st == ST_PAUSE) pausedFinishStored = true;
+    int m3 = d.mode % 3;
+    if (d.kind == K_PAR) {
+      int i = T.childIndex(p, c);
+      if (P.fin[i] < 0) { P.fin[i] = (signed char)r; P.nfin++; }
+      if ((m3 == 2 && r) || (m3 == 1 && !r)) P.trig = true;
+      if (P.trig || P.nfin == (int)d.ch.size()) setFinish(P, 1);
+      return;
+    }
+    if (!(P.pend == PD_WAIT && P.pendChild == c)) { fail(nn(c) + " finished, but the documented flow of its parent " + describePend(p)); return; }
+    int ci = T.childIndex(p, c);
+    switch (d.kind) {
+      case K_SEQ:
+        if ((m3 == 2 && r) || (m3 == 1 && !r)) setFinish(P, r);
+        else if (ci + 1 < (int)d.ch.size()) setStart(P, d.ch[ci + 1]);
+        else setFinish(P, r);
+        break;
+      case K_IFELSE:
+        if (ci == 0) {
+          int thenc = -1, elsec = -1;
+          if (d.ch.size() == 3) { thenc = d.ch[1]; elsec = d.ch[2]; } else if (d.mode & 1) elsec = d.ch[1]; else thenc = d.ch[1];
+          int br = r ? thenc : elsec;
+          if (br >= 0) setStart(P, br); else setFinish(P, 1);
+        } else setFinish(P, r);
+        break;
+      case K_IFTHEN:
+        if (ci & 1) setFinish(P, r);
+        else if (r) setStart(P, d.ch[ci + 1]);
+        else if (ci + 2 < (int)d.ch.size()) setStart(P, d.ch[ci + 2]);
+        else setFinish(P, 0);
+        break;
+      case K_SWITCH:
+        if (ci == 0) {
+          if (!r) { setFinish(P, 0); break; }
+          int sel = switchSel(T, p, rt[c].runs - 1);
+          int ncase = (int)d.ch.size() - 1 - (switchHasDefault(d) ? 1 : 0);
+          if (sel >= 0 && sel < ncase) setStart(P, d.ch[1 + sel]);
+          else if (switchHasDefault(d)) setStart(P, d.ch.back());
+          else setFinish(P, 0);
+        } else setFinish(P, r);
+        break;
+      case K_LOOP:
+        if ((m3 == 2 && r) || (m3 == 1 && !r)) setFinish(P, r); else setStart(P, c);
+        break;
+      case K_LOOPIF:
+        if (ci == 0) { if (r) setStart(P, d.ch[1]); else setFinish(P, (d.mode & 1) ? 0 : 1); }
+        else setStart(P, d.ch[0]);
+        break;
+      case K_REPEAT:
+        if ((m3 == 2 && r) || (m3 == 1 && !r)) setFinish(P, r);
+        else if (P.remain > 0) { P.remain--; setStart(P, c); }
+        else setFinish(P, 1);
+        break;
+      case K_WRAPPER: { int m = d.mode % 4; setFinish(P, m == 0 ? r : m == 1 ? !r : m == 2 ? 1 : 0); break; }
+      default: setFinish(P, r); break;
+    }
+  }
+
+  // ---- root callbacks
+  void rootFinishCb(bool s) {
+    note(0, s ? EV_CBFT : EV_CBFF);
+    if (!err.empty()) return;
+    NodeRt &r = rt[0];
+    if (r.st != ST_FIN) fail(std::string("the root's finish callback was delivered while the root is ") + kStName[r.st] + " (stale notification)");
+    else if (!pendingFinishCb) fail("the root's finish callback was delivered a second time for one run");
+    else if ((int)s != r.res) fail("the root's finish callback reports a result different from result()");
+    pendingFinishCb = 0;
+  }
+  void rootBlockCb() {
+    note(0, EV_CBB);
+    if (!err.empty()) return;
+    NodeRt &r = rt[0];
+    if (r.st == ST_STOP || r.st == ST_IDLE) fail(std::string("the root's block callback was delivered although the root is ") + kStName[r.st] + " (stale notification after stop/reset)");
+    else if (pendingBlockCb <= 0) fail("the root's block callback was delivered without a block() in this run");
+    if (pendingBlockCb > 0) pendingBlockCb--;
+    if (S.autores == 1) { if (r.st == ST_PAUSE) apply(W_RESUME); }
+    else if (S.autores > 1) due.push_back({S.autores - 2, W_RESUME});
+  }
+
+  // ---- control calls on the root
+  void apply(int what) {
+    if (!err.empty() || !root || frozen) return;
+    note(0, EV_CTL + what);
+    nCtlApplied++;
+    NodeRt &r = rt[0]; int before = r.st;
+    if (before == ST_RUN || before == ST_PAUSE)
+      for (size_t c = 1; c < rt.size(); ++c) {
+        int ps = rt[T.n[c].parent].st;
+        if (rt[c].finTick == tick && rt[c].st == ST_FIN && (ps == ST_RUN || ps == ST_PAUSE)) { between = true; if (what == W_PAUSE && before == ST_RUN) pauseBetween = true; }
+      }
+    switch (what) {
+      case W_START: inRootStart = true; root->start(); inRootStart = false; break;
+      case W_PAUSE: root->pause(); if (before == ST_RUN && r.st != ST_PAUSE) fail("pause() on the running root left it " + std::string(kStName[r.st])); break;
+      case W_RESUME: root->resume(); if (before == ST_PAUSE && r.st != ST_RUN && r.st != ST_FIN) fail("resume() on the paused root left it " + std::string(kStName[r.st])); break;
+      case W_STOP: root->stop(); if ((before == ST_RUN || before == ST_PAUSE) && r.st != ST_STOP) fail("stop() on the root that was under way left it " + std::string(kStName[r.st])); break;
+      case W_RESET:
+        root->reset();
+        if (r.st != ST_IDLE) fail("reset() left the root " + std::string(kStName[r.st]));
+        for (auto &x : rt) { x.runs = 0; x.finTick = -1; }
+        break;
+    }
+  }
+
+  // ---- one driver step (= one loop pass; the driver task is the last task of every pass)
+  void emissions() {
+    for (size_t n = 0; n < rt.size() && err.empty(); ++n) {
+      const TNode &d = T.n[n]; NodeRt &x = rt[n];
+      if (d.kind != K_DUMMY || d.dtype() == 2) continue;
+      if (x.act->state() != Action::State::kRunning || x.st != ST_RUN) continue;
+      if (x.phase == 1) { x.phase = 2; x.cd = d.delay2(); }
+      if (x.cd > 0) { x.cd--; continue; }
+      auto *dm = static_cast<tbox::flow::DummyAction *>(x.act);
+      if (d.dtype() == 1 && x.phase == 0) { x.phase = 1; dm->emitBlock(Action::Reason(7, "blocked")); }
+      else { int run = x.runs - 1; x.emitRes = (d.mask() >> (run % 8)) & 1; dm->emitFinish(x.emitRes != 0, Action::Reason(leafMessage((int)n, run))); }
+    }
+  }
+  void step(int64_t advance) {
+    int rel = tick - progBase;
+    if (prog) for (auto &c : *prog) if (c.tick == rel && c.phase == 0) apply(c.what);
+    if (scriptActive) for (auto &p : S.pp) if (p[0] == rel && p[2] == 0) ppPause(rel + p[1]);
+    emissions();
+    if (prog) for (auto &c : *prog) if (c.tick == rel && c.phase == 1) apply(c.what);
+    if (scriptActive) for (auto &p : S.pp) if (p[0] == rel && p[2] == 1) ppPause(rel + p[1]);
+    { std::vector<std::pair<int, int>> keep, fire;
+      for (auto &d : due) { if (d.first <= 0) fire.push_back(d); else keep.push_back({d.first - 1, d.second}); }
+      due.swap(keep);
+      for (auto &d : fire) apply(d.second); }
+    for (size_t i = 0; i < ppOpen.size();) { if (ppOpen[i][0] <= rel) { if (rt[0].st == ST_PAUSE) apply(W_RESUME); ppOpen.erase(ppOpen.begin() + i); } else ++i; }
+    int64_t adv = advance;
+    if (scriptActive) for (auto &a : S.adv) if (a.first == rel) adv += a.second;
+    now += (uint64_t)adv;
+    checkPass();
+    ++tick;
+  }
+  void ppPause(int resumeAt) { if (rt[0].st == ST_RUN) { apply(W_PAUSE); if (rt[0].st == ST_PAUSE) ppOpen.push_back({resumeAt, 0}); } }
+
+  static int stOf(Action::State s) {
+    switch (s) { case Action::State::kIdle: return ST_IDLE; case Action::State::kRunning: return ST_RUN; case Action::State::kPause: return ST_PAUSE;
+                 case Action::State::kFinished: return ST_FIN; default: return ST_STOP; }
+  }
+  // invariants after every pass
+  void checkPass() {
+    if (!err.empty()) return;
+    std::vector<int> dead(rt.size(), -1), idle(rt.size(), -1);   // nearest finished/stopped resp. idle ancestor
+    for (size_t n = 0; n < rt.size(); ++n) {
+      const NodeRt &x = rt[n]; const TNode &d = T.n[n];
+      int real = stOf(x.act->state());
+      if (real != x.st) { fail("state() of " + nn((int)n) + " is " + kStName[real] + ", but its callbacks say " + kStName[x.st]); return; }
+      auto rr = x.act->result(); int res = rr == Action::Result::kSuccess ? 1 : rr == Action::Result::kFail ? 0 : -1;
+      if (res != x.res) { fail("result() of " + nn((int)n) + " is " + tbox::flow::ToString(rr) + ", inconsistent with its callbacks (" + kStName[x.st] + ")"); return; }
+      if (d.parent >= 0) {
+        int p = d.parent;
+        dead[n] = (rt[p].st == ST_FIN || rt[p].st == ST_STOP) ? p : dead[p];
+        idle[n] = rt[p].st == ST_IDLE ? p : idle[p];
+        if (dead[n] >= 0 && (real == ST_RUN || real == ST_PAUSE)) { fail(nn(dead[n]) + " is " + kStName[rt[dead[n]].st] + " but its descendant " + nn((int)n) + " is still " + kStName[real]); return; }
+        if (idle[n] >= 0 && real != ST_IDLE) { fail(nn(idle[n]) + " is idle (reset) but its descendant " + nn((int)n) + " is " + kStName[real]); return; }
+      }
+      if (!isLeaf(d.kind) && x.ended && x.finals == 0) { fail("final hook of " + nn((int)n) + " did not run although it is " + kStName[x.st]); return; }
+    }
+  }
+  // liveness, decided once nothing happens any more (all timers fired, every scripted leaf emission done)
+  void checkQuiescent() {
+    if (!err.empty()) return;
+    std::vector<char> live(rt.size(), 0);   // running, and every ancestor running
+    for (size_t n = 0; n < rt.size(); ++n) {
+      const NodeRt &x = rt[n]; const TNode &d = T.n[n];
+      live[n] = x.st == ST_RUN && (d.parent < 0 || live[d.parent]);
+      if (!live[n]) continue;
+      if (d.kind == K_SLEEP) sleepAnomaly = true;   // only possible when the process was stalled for > 0.5 s of real time (sleep remainder is real-time based)
+      if (isLeaf(d.kind)) continue;
+      if (x.toStartLeft > 0) { fail(nn((int)n) + " is running but never started " + std::to_string(x.toStartLeft) + " of its children"); return; }
+      if (x.pend == PD_START || x.pend == PD_FINISH) { fail(nn((int)n) + " is stuck: it is running, nothing is pending in the loop, and its documented flow " + describePend((int)n)); return; }
+      if (x.pend == PD_WAIT && rt[x.pendChild].st != ST_RUN && rt[x.pendChild].st != ST_PAUSE) { fail(nn((int)n) + " is stuck: it is running and waits for child " + nn(x.pendChild) + " which is " + kStName[rt[x.pendChild].st]); return; }
+    }
+    if (rt[0].st == ST_FIN && pendingFinishCb) fail("the root finished but its finish callback was never delivered");
+  }
+  void checkAllDead() {
+    if (!err.empty()) return;
+    for (size_t n = 0; n < rt.size(); ++n) if (rt[n].st == ST_RUN || rt[n].st == ST_PAUSE) { fail("after stop() of the root, " + nn((int)n) + " is still " + kStName[rt[n].st]); return; }
+    for (size_t n = 0; n < rt.size(); ++n) checkFinals((int)n);
+  }
+
+  // ---- oracle 1: functional reference, per run of the root
+  std::string refNote; bool refCompared = false, refOrderCompared = false, refSkipped = false;
+  void checkReference() {
+    if (!err.empty()) return;
+    for (size_t k = 0; k < runs.size(); ++k) {
+      const RootRun &rr = runs[k];
+      if (rr.tmo || sleepAnomaly) { refSkipped = true; continue; }
+      Ref ref(T); int out = -1; int E = ref.eval(0, out);
+      if (ref.ambInLoop || ref.truncated) { refSkipped = true; continue; }
+      std::string where = "run " + std::to_string(k + 1) + " of the root: ";
+      refCompared = true;
+      if (rr.result >= 0) {
+        if (E < 0) { fail(where + "finished with " + (rr.result ? "success" : "failure") + ", but by the documented flow it cannot finish (a needed leaf never finishes)"); return; }
+        if (E != rr.result) { fail(where + "finished with " + (rr.result ? "success" : "failure") + ", the reference evaluation of the documented flow gives " + (E ? "success" : "failure")); return; }
+      } else if (k + 1 == runs.size() && !nonquiescent && rt[0].st == ST_RUN && E >= 0) {
+        fail(where + "still running at quiescence, the reference evaluation says it finishes with " + (E ? "success" : "failure")); return;
+      }
+      if (ref.ambiguous) continue;
+      refOrderCompared = true;
+      Matcher mt(ref);
+      for (size_t i = 0; i < rr.starts.size(); ++i)
+        if (!mt.accept(out, rr.starts[i])) { fail(where + "leaf start #" + std::to_string(i + 1) + " (" + nn(rr.starts[i]) + ") is not the next leaf in the documented order"); return; }
+      if (rr.result >= 0 && !mt.complete(out)) { fail(where + "finished after " + std::to_string(rr.starts.size()) + " leaf starts, the documented flow needs more"); return; }
+    }
+  }
+
+  // ---- driver phases
+  bool quiet(size_t &lastSize, int &quietTicks) { if (trace.size() == lastSize) ++quietTicks; else { quietTicks = 0; lastSize = trace.size(); } return quietTicks >= kQuietTicks; }
+};
+void runEv(Run *r, int node, int kind) { r->ev(node, kind); }
+
+// One execution: [prefix script; (stop;) reset; idle passes;] script S; drain; liveness + reference checks; final stop.
+// Returns the index into R.trace at which S began and the pass number of that point.
+struct ExecInfo { size_t mark = 0; int base = 0; };
+ExecInfo execute(Run &R, bool withPrefix) {
+  ExecInfo xi;
+  int ph = withPrefix ? 0 : 2, cntInPhase = 0, quietTicks = 0, drainTicks = 0; size_t lastSize = 0, idleMark = 0;
+  int preLen = 1; for (auto &c : R.S.pre) preLen = std::max(preLen, c.tick + 1);
+  int scriptLen = 1;
+  for (auto &c : R.S.ctl) scriptLen = std::max(scriptLen, c.tick + 1);
+  for (auto &p : R.S.pp) scriptLen = std::max(scriptLen, p[0] + p[1] + 1);
+  for (auto &a : R.S.adv) scriptLen = std::max(scriptLen, a.first + 1);
+  vloop::drive(R.loop, [&](int) -> bool {
+    if (!R.err.empty()) return false;
+    switch (ph) {
+      case 0:
+        R.prog = &R.S.pre; R.progBase = 0;
+        R.step(1);
+        if (R.tick >= preLen) {
+          if (R.S.pre_stop) R.apply(W_STOP);
+          R.apply(W_RESET);
+          R.prog = nullptr; R.due.clear(); ph = 1; cntInPhase = 0; idleMark = R.trace.size();
+        }
+        break;
+      case 1:
+        R.step(1);
+        if (R.err.empty() && R.trace.size() != idleMark) {
+          const Ent &e = R.trace[idleMark];
+          R.fail("after reset() of the whole tree, " + R.nn(e.node) + " still produced a '" + kEvName[e.kind] + "' event");
+        }
+        if (++cntInPhase >= 3) ph = 2;
+        break;
+      case 2:
+        R.prog = &R.S.ctl; R.progBase = R.tick; R.scriptActive = true; R.due.clear();
+        for (int &c : R.cnt) c = 0;
+        xi.mark = R.trace.size(); xi.base = R.tick; lastSize = R.trace.size();
+        ph = 3;
+        // fall through
+      case 3:
+        R.step(1);
+        if (R.tick - R.progBase >= scriptLen) { ph = 4; lastSize = R.trace.size(); quietTicks = 0; }
+        break;
+      case 4:
+        R.step(1); ++drainTicks;
+        if (R.quiet(lastSize, quietTicks) || drainTicks >= 45) { ph = 5; quietTicks = 0; }
+        break;
+      case 5:
+        R.step(kBigAdvance); ++drainTicks;
+        if (R.quiet(lastSize, quietTicks)) ph = 6;
+        else if (drainTicks >= kMaxDrain) { R.nonquiescent = true; ph = 6; }
+        break;
+      case 6:
+        if (!R.nonquiescent) R.checkQuiescent();
+        R.checkReference();
+        R.scriptActive = false; R.prog = nullptr; R.due.clear(); R.ppOpen.clear();
+        if (R.rt[0].st == ST_RUN || R.rt[0].st == ST_PAUSE) R.apply(W_STOP);
+        R.frozen = true;
+        ph = 7; cntInPhase = 0;
+        break;
+      default:
+        R.step(1);
+        if (++cntInPhase >= 3) { R.checkAllDead(); return false; }
+        break;
+    }
+    return R.err.empty();
+  });
+  return xi;
+}
+
+struct Env {
+  vloop::Clock clk; std::unique_ptr<tbox::event::Loop> loop;
+  Env() : clk(1000000), loop(tbox::event::Loop::New()) {}
+  void settle() { vloop::passes(loop.get(), 2); }
+};
+void destroyTree(Run &R, Env &E) { delete R.root; R.root = nullptr; E.settle(); }
+
+void shapeClasses(const Tree &T, CaseInfo &info) {
+  info.cls_if(T.depth >= 3, "depth>=3"); info.cls_if(T.depth >= 4, "depth=4");
+  info.cls_if(T.hasPar, "has_parallel"); info.cls_if(T.hasPar && T.hasSerial, "parallel+serial");
+  info.cls_if(T.hasLoop, "has_loop"); info.cls_if(T.hasTimeout, "timeout_set");
+  info.cls_if(T.n.size() >= 10, "nodes>=10");
+}
+
+// ---------------------------------------------------------------------------------------------------- sub `tree`
+std::string runTree(const Scenario &s, CaseInfo &info) {
+  Tree T = parseTree(s, false, false); Script S = parseScript(s); S.pre.clear(); S.pp.clear();
+  Env E; Run R(T, S, E.loop.get(), E.clk.now);
+  R.buildTree();
+  if (R.err.empty()) execute(R, false);
+  destroyTree(R, E);
+  shapeClasses(T, info);
+  bool rerun = R.runs.size() >= 2 && !R.runs[1].starts.empty();
+  bool finished = false, stopped = false; for (auto &r : R.runs) { if (r.result >= 0) finished = true; if (r.stopped) stopped = true; }
+  info.cls_if(R.between, "ctl_between_child_finish_and_parent_handling"); info.cls_if(R.pauseBetween, "pause_between_child_finish_and_parent_handling");
+  info.cls_if(rerun, "reset_then_rerun"); info.cls_if(R.resetUnderway, "reset_while_under_way");
+  info.cls_if(R.anyTimeout, "timeout_fired"); info.cls_if(R.blockSeen, "leaf_blocked");
+  info.cls_if(R.pausedFinishStored, "child_finished_while_parent_paused");
+  info.cls_if(finished, "root_finished"); info.cls_if(stopped, "root_stopped_under_way");
+  info.cls_if(R.nonquiescent, "endless_loop"); info.cls_if(R.refCompared, "reference_result_compared");
+  info.cls_if(R.refOrderCompared, "reference_start_order_compared"); info.cls_if(R.refSkipped, "reference_skipped_for_a_run");
+  info.cls_if(R.nCtlApplied >= 4, "ctl_calls>=4"); info.cls_if(R.sleepAnomaly, "sleep_anomaly");
+  info.nontrivial = T.depth >= 3 && T.hasPar && T.hasSerial && (R.between || rerun);
+  return R.err;
+}
+
+// ---------------------------------------------------------------------------------------------- sub `reset_meta`
+std::string runResetMeta(const Scenario &s, CaseInfo &info) {
+  Tree T = parseTree(s, true, false); Script S = parseScript(s); S.pp.clear();
+  std::vector<Ent> ta, tb; std::string err; bool underway = false, prefixActivity = false;
+  for (int pass = 0; pass < 2 && err.empty(); ++pass) {
+    Env E; Run R(T, S, E.loop.get(), E.clk.now);
+    R.buildTree();
+    ExecInfo xi;
+    if (R.err.empty()) xi = execute(R, pass == 1);
+    destroyTree(R, E);
+    if (!R.err.empty()) { err = std::string(pass ? "[prefix; reset; S] " : "[S on a fresh tree] ") + R.err; break; }
+    auto &dst = pass ? tb : ta;
+    for (size_t i = xi.mark; i < R.trace.size(); ++i) dst.push_back(Ent{R.trace[i].tick - xi.base, R.trace[i].node, R.trace[i].kind});
+    if (pass == 1) { underway = R.resetUnderway; prefixActivity = xi.mark > 4; }
+  }
+  if (err.empty()) {
+    size_t i = 0; while (i < ta.size() && i < tb.size() && ta[i] == tb[i]) ++i;
+    if (i < ta.size() || i < tb.size()) {
+      auto show = [&](const std::vector<Ent> &v) { return i < v.size() ? "pass " + std::to_string(v[i].tick) + " " + nodeName(T, v[i].node) + " " + kEvName[v[i].kind] : std::string("<end>"); };
+      err = "S behaves differently after 'prefix; reset' than on a freshly built tree: event #" + std::to_string(i) + " fresh: " + show(ta) + " / after reset: " + show(tb);
+    }
+  }
+  shapeClasses(T, info);
+  info.cls_if(underway, "reset_while_under_way"); info.cls_if(prefixActivity, "prefix_ran_something");
+  info.nontrivial = T.depth >= 2 && !isLeaf(T.n[0].kind) && prefixActivity && underway;
+  return err;
+}
+
+// ---------------------------------------------------------------------------------------------- sub `pause_meta`
+std::string runPauseMeta(const Scenario &s, CaseInfo &info) {
+  Tree T = parseTree(s, true, true); Script S = parseScript(s); S.pre.clear(); S.ev.clear(); S.cb.clear();
+  { std::vector<Ctl> keep; for (auto &c : S.ctl) if (c.what == W_START) keep.push_back(c); if (keep.empty()) keep.push_back({0, W_START, 0}); S.ctl.swap(keep); }
+  if (S.autores == 0) S.autores = 2;   // a leaf that blocks is always resumed: otherwise the resume() of an inserted pair would double as that resume
+  Script SA = S; SA.pp.clear();
+  std::vector<RootRun> ra, rc; std::string err; bool stored = false; int pauses = 0; bool nonq = false;
+  for (int pass = 0; pass < 2 && err.empty(); ++pass) {
+    Env E; Run R(T, pass ? S : SA, E.loop.get(), E.clk.now);
+    R.buildTree();
+    if (R.err.empty()) execute(R, false);
+    destroyTree(R, E);
+    if (!R.err.empty()) { err = std::string(pass ? "[S with pause/resume pairs] " : "[S] ") + R.err; break; }
+    (pass ? rc : ra) = R.runs; nonq |= R.nonquiescent;
+    if (pass) { stored = R.pauseBetween; for (auto &e : R.trace) if (e.kind == EV_CTL + W_PAUSE) ++pauses; }
+  }
+  Ref ref(T); int out; ref.eval(0, out);
+  bool comparable = !ref.ambInLoop && !ref.truncated && !nonq;
+  if (err.empty() && comparable) {
+    if (ra.size() != rc.size()) err = "number of root runs differs";
+    for (size_t k = 0; k < ra.size() && err.empty(); ++k) {
+      if (ra[k].result != rc[k].result) err = "inserting pause/resume pairs changed the root result of run " + std::to_string(k + 1) + ": " + std::to_string(ra[k].result) + " -> " + std::to_string(rc[k].result) + " (-1 = did not finish)";
+      else if (!ref.ambiguous) {
+        auto a = ra[k].starts, c = rc[k].starts;
+        if (!T.hasPar && a != c) err = "inserting pause/resume pairs changed the leaf start order of run " + std::to_string(k + 1);
+        std::sort(a.begin(), a.end()); std::sort(c.begin(), c.end());
+        if (err.empty() && a != c) err = "inserting pause/resume pairs changed how often leaves are started in run " + std::to_string(k + 1);
+      }
+    }
+  }
+  shapeClasses(T, info);
+  info.cls_if(pauses > 0, "pause_took_effect"); info.cls_if(stored, "pause_between_child_finish_and_parent_handling"); info.cls_if(!comparable, "not_comparable");
+  info.nontrivial = pauses > 0 && stored && T.depth >= 2;
+  return err;
+}
+
+// ------------------------------------------------------------------------------------------------------ generators
+#ifndef VERIF_ENGINE_FUZZ
+struct Rng {
+  uint64_t st;
+  explicit Rng(int64_t seed) : st((uint64_t)seed * 0x9E3779B97F4A7C15ull + 0x51ed27ull) {}
+  uint64_t next() { uint64_t z = (st += 0x9E3779B97F4A7C15ull); z = (z ^ (z >> 30)) * 0xBF58476D1CE4E5B9ull; z = (z ^ (z >> 27)) * 0x94D049BB133111EBull; return z ^ (z >> 31); }
+  int64_t rng(int64_t lo, int64_t hi) { return lo + (int64_t)(next() % (uint64_t)(hi - lo + 1)); }
+  bool chance(int pct) { return rng(0, 99) < pct; }
+  int64_t pick(std::initializer_list<std::pair<int, int64_t>> w) {
+    int total = 0; for (auto &p : w) total += p.first;
+    int64_t x = rng(0, total - 1);
+    for (auto &p : w) { if (x < p.first) return p.second; x -= p.first; }
+    return 0;
+  }
+};
+void mk(Scenario &sc, int code, std::vector<int64_t> a) { Op o; o.code = code; o.a = std::move(a); sc.ops.push_back(std::move(o)); }
+
+struct TreeGen {
+  Rng &g; Scenario &sc; int count = 0, budget; bool timeouts, sleeps; int leaves = 0;
+  TreeGen(Rng &r, Scenario &s, int b, bool t, bool sl) : g(r), sc(s), budget(b), timeouts(t), sleeps(sl) {}
+  void node(int parent, int depth) {
+    bool composite = depth < kMaxDepth && budget - count >= 2 && g.chance(depth == 1 ? 94 : depth == 2 ? 62 : 42);
+    int kind;
+    if (composite) kind = (int)g.pick({{16, K_SEQ}, {18, K_PAR}, {8, K_IFELSE}, {7, K_IFTHEN}, {7, K_SWITCH}, {8, K_LOOP}, {6, K_LOOPIF}, {9, K_REPEAT}, {8, K_WRAPPER}, {6, K_COMPOSITE}});
+    else kind = (int)g.pick({{9, K_SUCC}, {7, K_FAIL}, {26, K_FUNC}, {48, K_DUMMY}, {sleeps ? 8 : 0, K_SLEEP}});
+    int64_t mode = g.rng(0, 11);
+    if (kind == K_LOOP) mode = g.pick({{12, 0}, {44, 1}, {44, 2}});
+    int64_t mask = g.pick({{28, 0xff}, {12, 0}, {60, -1}}); if (mask < 0) mask = g.rng(0, 255);
+    int64_t a = mask | (g.rng(0, 4095) << 8);
+    int64_t type = g.pick({{70, 0}, {20, 4}, {10, 7}});
+    int64_t b = type + 8 * g.pick({{40, 0}, {25, 1}, {15, 2}, {10, 3}, {5, 4}, {5, 5}}) + 48 * g.rng(0, 3);
+    int64_t tmo = 0;
+    if (timeouts && g.chance(composite ? 14 : 7)) tmo = g.chance(55) ? g.rng(1, 40) : g.rng(41, 63);
+    mk(sc, NODE, {parent < 0 ? 0 : parent, kind, mode, a, b, tmo});
+    int me = count++;
+    if (!composite) { ++leaves; return; }
+    int nk;
+    switch (kind) {
+      case K_SEQ: nk = (int)g.pick({{3, 0}, {17, 1}, {40, 2}, {28, 3}, {12, 4}}); break;
+      case K_PAR: nk = (int)g.pick({{2, 0}, {6, 1}, {50, 2}, {30, 3}, {12, 4}}); break;
+      case K_IFELSE: nk = (int)g.rng(2, 3); break;
+      case K_IFTHEN: nk = (int)g.pick({{55, 2}, {35, 4}, {10, 6}}); break;
+      case K_SWITCH: nk = (int)g.rng(2, 5); break;
+      case K_LOOPIF: nk = 2; break;
+      default: nk = 1; break;
+    }
+    for (int i = 0; i < nk; ++i) { if (count >= budget) break; node(me, depth + 1); }
+  }
+};
+void genTree(Rng &g, Scenario &sc, bool timeouts, bool sleeps) {
+  int budget = (int)g.pick({{6, 3}, {18, 6}, {30, 10}, {28, 14}, {18, 18}});
+  TreeGen tg(g, sc, budget, timeouts, sleeps);
+  tg.node(-1, 1);
+}
+int64_t genWhat(Rng &g) { return g.pick({{2, W_START}, {30, W_PAUSE}, {26, W_RESUME}, {22, W_STOP}, {12, W_RESET}}); }
+
+Scenario expandTree(int64_t seed) {
+  Rng g(seed); Scenario sc;
+  mk(sc, CFG, {g.pick({{18, 0}, {30, 1}, {30, 2}, {12, 3}, {10, 4}}), 0});
+  genTree(g, sc, true, true);
+  mk(sc, CTL, {g.pick({{80, 0}, {15, 1}, {5, 3}}), W_START, 0});
+  int style = (int)g.pick({{22, 0}, {78, 1}});
+  if (style == 1) {
+    int n = (int)g.pick({{35, 1}, {30, 2}, {20, 3}, {15, 5}});
+    for (int i = 0; i < n; ++i) {
+      switch (g.pick({{20, 0}, {34, 1}, {8, 2}, {14, 3}, {14, 4}, {10, 5}})) {
+        case 0: mk(sc, CTL, {g.rng(0, 14), genWhat(g), g.rng(0, 1)}); break;
+        case 1: { int64_t cls = g.pick({{40, EC_LEAF_FIN}, {30, EC_NODE_FIN}, {12, EC_LEAF_START}, {10, EC_ROOT_BLOCK}, {8, EC_LEAF_BLOCK}});
+          int64_t n1 = g.pick({{40, 1}, {25, 2}, {15, 3}, {20, -1}}); if (n1 < 0) n1 = g.rng(4, 9);
+          int64_t w = genWhat(g), dl = g.pick({{70, 0}, {20, 1}, {10, 2}});
+          mk(sc, CTLEV, {cls, n1, w, dl});
+          if (w == W_PAUSE && g.chance(85)) mk(sc, CTLEV, {cls, n1, W_RESUME, dl + g.pick({{30, 0}, {35, 1}, {20, 2}, {15, 3}})});
+          break; }
+        case 2: mk(sc, CTLCB, {g.rng(1, 6), genWhat(g)}); break;
+        case 3: { int64_t t = g.rng(0, 12), len = g.rng(0, 5); mk(sc, CTL, {t, W_PAUSE, g.rng(0, 1)}); mk(sc, CTL, {t + len, W_RESUME, g.rng(0, 1)}); break; }
+        case 4: { int64_t t = g.rng(1, 16);   // stop / reset / start again
+          if (g.chance(75)) mk(sc, CTL, {t, W_STOP, g.rng(0, 1)});
+          mk(sc, CTL, {t + g.rng(0, 2), W_RESET, g.rng(0, 1)});
+          mk(sc, CTL, {t + g.rng(2, 4), W_START, g.rng(0, 1)}); break; }
+        default: mk(sc, ADV, {g.rng(0, 14), g.pick({{50, 700}, {30, -1}, {20, 2000}}) < 0 ? g.rng(3, 60) : 700}); break;
+      }
+    }
+  }
+  return sc;
+}
+Scenario expandResetMeta(int64_t seed) {
+  Rng g(seed); Scenario sc;
+  mk(sc, CFG, {g.pick({{25, 0}, {30, 1}, {30, 2}, {15, 3}}), g.pick({{55, 0}, {45, 1}})});
+  genTree(g, sc, true, false);
+  mk(sc, PRE, {0, W_START, 0});
+  int np = (int)g.pick({{30, 0}, {35, 1}, {25, 2}, {10, 3}});
+  for (int i = 0; i < np; ++i) mk(sc, PRE, {g.rng(1, 10), genWhat(g), g.rng(0, 1)});
+  mk(sc, PRE, {g.rng(1, 12), W_RESUME, 0});   // also fixes the length of the prefix
+  mk(sc, CTL, {0, W_START, 0});
+  if (g.chance(40)) { int64_t t = g.rng(0, 10); mk(sc, CTL, {t, W_PAUSE, g.rng(0, 1)}); mk(sc, CTL, {t + g.rng(0, 4), W_RESUME, g.rng(0, 1)}); }
+  if (g.chance(20)) mk(sc, CTL, {g.rng(2, 14), W_STOP, g.rng(0, 1)});
+  if (g.chance(20)) mk(sc, ADV, {g.rng(0, 12), 700});
+  return sc;
+}
+Scenario expandPauseMeta(int64_t seed) {
+  Rng g(seed); Scenario sc;
+  mk(sc, CFG, {g.pick({{10, 0}, {35, 1}, {35, 2}, {20, 3}}), 0});
+  genTree(g, sc, false, false);
+  mk(sc, CTL, {0, W_START, 0});
+  int np = (int)g.pick({{45, 1}, {35, 2}, {20, 4}});
+  for (int i = 0; i < np; ++i) mk(sc, PP, {g.rng(0, 12), g.pick({{30, 0}, {30, 1}, {25, 2}, {15, 5}}), g.rng(0, 1)});
+  return sc;
+}
+
+rc::Gen<Scenario> genFrom(Scenario (*expand)(int64_t)) {
+  auto base = rc::gen::map(rc::gen::noShrink(range(0, (int64_t)1 << 62)), expand);
+  return rc::gen::shrink(base, [](const Scenario &s) {
+    std::vector<Scenario> out; size_t n = s.ops.size();
+    for (size_t chunk = n / 2; chunk >= 1; chunk /= 2) {
+      for (size_t at = 0; at + chunk <= n; at += chunk) {
+        Scenario t; t.ops.reserve(n - chunk);
+        for (size_t i = 0; i < n; ++i) if (i < at || i >= at + chunk) t.ops.push_back(s.ops[i]);
+        out.push_back(std::move(t));
+      }
+      if (chunk == 1) break;
+    }
+    for (size_t i = 0; i < n; ++i)
+      for (size_t k = 0; k < s.ops[i].a.size(); ++k)
+        if (s.ops[i].a[k] != 0) { Scenario t = s; t.ops[i].a[k] = 0; out.push_back(std::move(t)); if (s.ops[i].a[k] > 1) { Scenario u = s; u.ops[i].a[k] = s.ops[i].a[k] / 2; out.push_back(std::move(u)); } }
+    return rc::seq::fromContainer(std::move(out));
+  });
+}
+#endif
+
+const std::vector<const char *> kOpNames = {"cfg", "node", "ctl", "ctlev", "ctlcb", "adv", "pre", "pp"};
+const std::vector<int> kOpArity = {2, 6, 3, 4, 2, 2, 3, 3};
+
+SubDef defTree = [] {
+  SubDef d; d.name = "tree"; d.op_names = kOpNames; d.op_arity = kOpArity;
+  d.nt_rule = "tree of depth >= 3 with a Parallel and a serial composite, and a control call placed in the pass between a child's finish and its parent's handling of it, or a reset followed by a re-run that started leaves";
+  d.run = runTree;
+#ifndef VERIF_ENGINE_FUZZ
+  d.gen = [] { return genFrom(expandTree); };
+#endif
+  return d;
+}();
+VERIF_REGISTER(&defTree);
+
+SubDef defReset = [] {
+  SubDef d; d.name = "reset_meta"; d.op_names = kOpNames; d.op_arity = kOpArity;
+  d.nt_rule = "composite root of depth >= 2 whose prefix script ran something and was still under way (running or paused) when reset() was applied";
+  d.run = runResetMeta;
+#ifndef VERIF_ENGINE_FUZZ
+  d.gen = [] { return genFrom(expandResetMeta); };
+#endif
+  return d;
+}();
+VERIF_REGISTER(&defReset);
+
+SubDef defPause = [] {
+  SubDef d; d.name = "pause_meta"; d.op_names = kOpNames; d.op_arity = kOpArity;
+  d.nt_rule = "depth >= 2, an inserted pause took effect on the running root in the pass between a child's finish and its parent's handling of it";
+  d.run = runPauseMeta;
+#ifndef VERIF_ENGINE_FUZZ
+  d.gen = [] { return genFrom(expandPauseMeta); };
+#endif
+  return d;
+}();
+VERIF_REGISTER(&defPause);
+}  // namespace
